@@ -2,6 +2,10 @@
 //! `vx replay <file>`.
 
 fn main() {
+    // anyhow captures a backtrace per error when backtraces are enabled: very slow (global
+    // lock + unwinding) for the millions of expected Err results; must be set before first use
+    std::env::set_var("RUST_LIB_BACKTRACE", "0");
+    std::env::set_var("RUST_BACKTRACE", "0");
     vx::real::install_panic_hook();
     let args: Vec<String> = std::env::args().collect();
     let code = match args.get(1).map(String::as_str) {
@@ -16,6 +20,43 @@ fn main() {
                     2
                 }
             }
+        }
+        Some("hx") => {
+            // ad-hoc exploration: vx hx <prop> <n> <cap> <ids,..> <labels,..> <data,..> <depth|0> <wall_s> [all] [drain] [track]
+            let list = |s: &str| -> Vec<usize> { s.split(',').filter(|x| !x.is_empty()).map(|x| x.parse().unwrap()).collect() };
+            let prop: &'static str = Box::leak(args[2].clone().into_boxed_str());
+            let l8 = |s: &str| -> Vec<u8> { list(s).into_iter().map(|x| x as u8).collect() };
+            let mut c = vx::hx::HxCfg::new(prop, "adhoc", args[3].parse().unwrap(), args[4].parse().unwrap(), &list(&args[5]), &l8(&args[6]), &l8(&args[7]));
+            let d: usize = args[8].parse().unwrap();
+            c.max_depth = if d == 0 { usize::MAX } else { d };
+            c.wall = std::time::Duration::from_secs(args[9].parse().unwrap());
+            for f in &args[10..] {
+                match f.as_str() {
+                    "all" => { c.clone_swap = true; c.reload_swap = true; c.merges = vec![0, 1, 2]; }
+                    "clone" => c.clone_swap = true,
+                    "reload" => c.reload_swap = true,
+                    "merge" => c.merges = vec![0, 1, 2],
+                    "drain" => c.probes.drain = true,
+                    "cuts" => c.probes.cuts = true,
+                    "reloadp" => c.probes.reload = true,
+                    "clonep" => c.probes.clone = true,
+                    "slice" => c.probes.slice = true,
+                    "exports" => c.probes.exports = true,
+                    "texts" => c.probes.texts = true,
+                    "track" => c.track_returned = true,
+                    "nonext" => { c.next_id = false; c.add_next = false; }
+                    _ => panic!("flag {f}"),
+                }
+            }
+            let r = vx::hx::run(&c);
+            println!("{}", r.cfg);
+            println!("states {} transitions {} depth {} closed {} cap {:?} widest {} wall {:.1}s", r.states, r.transitions, r.depth_completed, r.closed, r.cap_hit, r.widest_level, r.wall_s);
+            println!("violations {} {:?}; diverged {} {:?}", r.violation_count, r.violation_kinds, r.diverged_other, r.diverged_kinds);
+            for v in &r.violations {
+                println!("  {} :: {}\n     {}", v.kind, vx::model::hist_text(&v.history), v.detail);
+            }
+            println!("counters {:?}", r.counters);
+            0
         }
         Some("replay") => vx::replay::replay_file(args.get(2).expect("path")),
         _ => {
